@@ -1,0 +1,6 @@
+//go:build verif
+
+package binfield
+
+// FieldPtr returns the field object a belongs to.
+func (a *Element) FieldPtr() *Field { return a.field }
